@@ -240,3 +240,45 @@ def _carried(loop):
         if name not in stored and name not in target_names and name in loads_other:
             carried.add(name)
     return carried - comp_names - {"self"}
+
+
+# --------------------------------------------------------------------------------------
+# a property's check discharges, itself, the contracts it ASSUMES from another property's check
+# --------------------------------------------------------------------------------------
+class RenamedUnit(object):
+    """proxy of a runner.Unit that files every obligation `<src>.xyz` as `<dst>.xyz`: lets the check of one property run the
+    unit of another property whose contract it relies on (the obligations are generated and discharged again, on the same
+    real functions; only their ids differ)"""
+
+    def __init__(self, U, src, dst):
+        object.__setattr__(self, "_U", U)
+        object.__setattr__(self, "_src", src)
+        object.__setattr__(self, "_dst", dst)
+
+    def _r(self, oid):
+        return self._dst + oid[len(self._src):] if isinstance(oid, str) and oid.startswith(self._src + ".") else oid
+
+    def __getattr__(self, k):
+        return getattr(self._U, k)
+
+    def __setattr__(self, k, v):
+        setattr(self._U, k, v)
+
+    def prove(self, oid, *a, **k):
+        return self._U.prove(self._r(oid), *a, **k)
+
+    def cover(self, oid, *a, **k):
+        return self._U.cover(self._r(oid), *a, **k)
+
+    def bounded_result(self, oid, *a, **k):
+        return self._U.bounded_result(self._r(oid), *a, **k)
+
+
+def dep_unit(module, unit_fn_name, src, dst, doc):
+    """unit function that runs `props.<module>.<unit_fn_name>` with its obligations renamed from <src>.* to <dst>.*"""
+    def unit(U):
+        import importlib
+        m = importlib.import_module("props." + module)
+        getattr(m, unit_fn_name)(RenamedUnit(U, src, dst))
+    unit.__doc__ = doc
+    return unit
